@@ -52,7 +52,6 @@ var blsOnce sync.Once
 
 // NewEnv builds the fixture (about 0.2-0.5 s: two RSA-2048 key generations).
 func NewEnv() (*Env, error) {
-	blsOnce.Do(threshold.Init)
 	sk, err := rsa.GenerateKey(crand.Reader, 2048)
 	if err != nil {
 		return nil, err
@@ -61,6 +60,29 @@ func NewEnv() (*Env, error) {
 	if err != nil {
 		return nil, err
 	}
+	return newEnv(sk, fk)
+}
+
+// KeyPEM exports the node's operator key (for a helper process that must be the same operator).
+func (env *Env) KeyPEM() []byte {
+	return pem.EncodeToMemory(&pem.Block{Type: "RSA PRIVATE KEY", Bytes: x509.MarshalPKCS1PrivateKey(env.OwnRSA)})
+}
+
+// NewEnvFromPEM builds the fixture around an existing operator key (no event generation possible: no foreign key).
+func NewEnvFromPEM(p []byte) (*Env, error) {
+	b, _ := pem.Decode(p)
+	if b == nil {
+		return nil, fmt.Errorf("no PEM block")
+	}
+	sk, err := x509.ParsePKCS1PrivateKey(b.Bytes)
+	if err != nil {
+		return nil, err
+	}
+	return newEnv(sk, nil)
+}
+
+func newEnv(sk, fk *rsa.PrivateKey) (*Env, error) {
+	blsOnce.Do(threshold.Init)
 	pemBytes := pem.EncodeToMemory(&pem.Block{Type: "RSA PRIVATE KEY", Bytes: x509.MarshalPKCS1PrivateKey(sk)})
 	own, err := keys.PrivateKeyFromBytes(pemBytes)
 	if err != nil {
@@ -78,12 +100,8 @@ func NewEnv() (*Env, error) {
 	if err != nil {
 		return nil, fmt.Errorf("abi: %w", err)
 	}
-	disk, err := NewDisk()
-	if err != nil {
-		return nil, err
-	}
 	return &Env{
-		Disk:   disk,
+		Disk:   &Disk{},
 		OwnKey: own, OwnRSA: sk, OwnPubB64: pub, EKMHash: h, ABI: abi, ForeignRSA: fk,
 		NetCfg: networkconfig.NetworkConfig{
 			Name:   "verif",
